@@ -99,7 +99,8 @@ class Hostname(object):
                 regex = re.compile(r'(?![\W\-\:\ \.])[a-zA-Z0-9\-\_\.]*\.%s' % d)
                 hostnames = [each for each in regex.findall(line)]
                 if len(hostnames) > 0:
-                    for hn in hostnames:
+                    # the longest first: a name that is part of a longer one must not be replaced inside it
+                    for hn in sorted(hostnames, key=len, reverse=True):
                         new_hn = self._hn2db(hn)
                         logger.debug("Obfuscating FQDN - %s > %s", hn, new_hn)
                         line = line.replace(hn, new_hn)
